@@ -63,6 +63,7 @@ type Contract struct {
 	PosNames []string          // names the clauses use for the function's parameters, by position (receiver first)
 	HasParamList bool
 	AtCalls  []*Clause         // obligations at the unit's calls of a named callee
+	Slow     int               // escalation-limit factor for heavy but decidable goals (0 = none)
 	Rank     int               // termination rank (0 = none): a call of a ranked callee must go to a lower rank or follow a strict decrease of the family's measure
 	NoRank   map[string]bool   // function variables whose calls are exempt from the termination obligation (hypothesis, listed in the evidence)
 	Groups   []string          // clause groups spliced into this contract (use)
@@ -278,6 +279,15 @@ func parseContractText(pkg, file string, src []byte) ([]*Contract, error) {
 			}
 			c.Text = "(" + expr + ") < old(" + expr + ")"
 			cur.AtCalls = append(cur.AtCalls, c)
+		case "slow":
+			// slow <factor>: the goals of this unit are decidable but heavy (case splits over written-out specification
+			// functions); like bit-vector units they get a longer path limit and <factor> times the escalation limit, so that
+			// machine load cannot turn them into alarms
+			n, err := strconv.Atoi(strings.TrimSpace(rest))
+			if err != nil || n <= 1 || n > 10 {
+				return nil, fmt.Errorf("%s:%d: slow <factor 2..10>", file, lineNo)
+			}
+			cur.Slow = n
 		case "rank":
 			n, err := strconv.Atoi(strings.TrimSpace(rest))
 			if err != nil || n <= 0 {
